@@ -33,6 +33,7 @@ def run(chk):
                        'holds for every file layout and flag combination.')
     chk.rule('C12-R1', 'every per-halo array that reaches halo_data is permuted by sortind in the re-sort branch (under the same flags)', 10)
     chk.rule('C12-R2', 'every per-halo / per-particle array is filled through the same slab slice; tickers advance once per slab after the stores', 4)
+    chk.rule('C12-R4', 'per-slab values are row-aligned with the slab table they are read from (column reads, element-wise arithmetic, repeat-reshape / stack along axis 1); no re-assembly that moves values between rows', 20)
     chk.rule('C12-R3', 'sortedness is asserted after the branch; pinds = sorted search of phid in the (re-sorted) hid', 3)
     chk.assume('halo ids are duplicate-free and every particle records the id of a halo that is present (precondition of the statement)')
     # allocations by leading dimension
@@ -146,6 +147,8 @@ def run(chk):
                   f'arrays not filled through the common slab slice: {bad}; ticker advanced once after the stores (or looked up in the exclusive prefix sums of {counts}): {after}', node=L)
         chk.check(okinit, 'C12-R2', HOD, Q, f'{ticker} starts at 0 before the loop', '',
                   f'{ticker} is not initialised to 0 before the loading loop', node=L, nontrivial=False)
+    # R4 row alignment of the per-slab values
+    _row_alignment(chk, fn, L, H, part_allocs)
     # R3
     asserts = [n for n in fn.body if isinstance(n, ast.Assert) and 'hid[:-1] <= hid[1:]' in unparse(n.test)]
     oka = len(asserts) == 1 and asserts[0].lineno > sortif.end_lineno
@@ -177,6 +180,144 @@ def run(chk):
     chk.check(okcov, 'C12-R3', HOD, '_searchsorted_parallel', 'loop covers every particle', '',
               'lookup loop does not cover all of b', node=sp, nontrivial=False)
 
+
+
+ELEMENTWISE = {'np.sqrt', 'np.log', 'np.log10', 'np.exp', 'np.abs', 'np.float32', 'np.float64', 'np.asarray', 'np.array', 'np.ascontiguousarray',
+               'np.minimum', 'np.maximum', 'np.clip', 'np.where', 'np.nan_to_num', 'np.power', 'np.square'}
+SCRAMBLE = {'np.concatenate', 'np.hstack', 'np.vstack', 'np.append', 'np.roll', 'np.flip', 'np.sort', 'np.argsort', 'np.unique', 'np.tile',
+            'np.random.permutation', 'np.random.shuffle', 'np.ravel', 'np.resize', 'np.transpose'}
+
+
+def _row_alignment(chk, fn, L, halo_allocs, part_allocs):
+    """Abstract value of an expression of the slab loop: ('row', T) = one entry per row of table T, in T's row order;
+    ('scalar',); ('bad', why) = built from per-row data by an operation that does not keep row r at position r;
+    ('unknown', why).  Row r of every per-halo array must come from row r of the slab's halo table."""
+    tables = {}
+    for n in walk_no_nested(L):
+        if isinstance(n, ast.Assign) and len(n.targets) == 1 and isinstance(n.targets[0], ast.Name) and isinstance(n.value, ast.Subscript) \
+                and isinstance(n.value.slice, ast.Constant) and isinstance(n.value.slice.value, str) and n.value.slice.value in ('halos', 'particles'):
+            tables[n.targets[0].id] = n.value.slice.value
+    if not tables:
+        raise AnalysisError('staging: slab tables (newfile[\'halos\'], newpart[\'particles\']) not found')
+    defs = {}
+    for n in walk_no_nested(L):
+        if isinstance(n, ast.Assign) and len(n.targets) == 1 and isinstance(n.targets[0], ast.Name):
+            defs.setdefault(n.targets[0].id, []).append(n)
+
+    def join(vals):
+        vals = [v for v in vals if v[0] != 'scalar']
+        if not vals:
+            return ('scalar',)
+        for v in vals:
+            if v[0] == 'bad':
+                return v
+        for v in vals:
+            if v[0] == 'unknown':
+                return v
+        ts = {v[1] for v in vals}
+        return ('row', ts.pop()) if len(ts) == 1 else ('bad', 'mixes rows of different tables')
+
+    def ev(e, before, depth=0):
+        if depth > 12:
+            return ('unknown', 'too deep')
+        if isinstance(e, ast.Constant):
+            return ('scalar',)
+        if isinstance(e, ast.Name):
+            if e.id in tables:
+                return ('row', e.id)
+            ds = [d for d in defs.get(e.id, []) if d.lineno < before]
+            if not ds:
+                return ('scalar',)
+            return join([ev(d.value, d.lineno, depth + 1) for d in ds]) if all(True for d in ds) else ('unknown', e.id)
+        if isinstance(e, ast.Attribute):
+            if e.attr in ('T',):
+                v = ev(e.value, before, depth + 1)
+                return ('bad', 'transposed') if v[0] == 'row' else v
+            return ('scalar',)
+        if isinstance(e, ast.Subscript):
+            v = ev(e.value, before, depth + 1)
+            if v[0] != 'row':
+                return v
+            sl = e.slice
+            if isinstance(sl, ast.Constant) and isinstance(sl.value, str):
+                return v            # a column of the table
+            items = sl.elts if isinstance(sl, ast.Tuple) else [sl]
+            first = items[0]
+            if isinstance(first, ast.Slice) and first.lower is None and first.upper is None and first.step is None:
+                return v            # x[:, k]
+            return ('bad', f'rows selected or reordered by [{unparse(sl)}]')
+        if isinstance(e, ast.BinOp):
+            return join([ev(e.left, before, depth + 1), ev(e.right, before, depth + 1)])
+        if isinstance(e, ast.UnaryOp):
+            return ev(e.operand, before, depth + 1)
+        if isinstance(e, ast.Compare):
+            return join([ev(e.left, before, depth + 1)] + [ev(c, before, depth + 1) for c in e.comparators])
+        if isinstance(e, ast.IfExp):
+            return join([ev(e.body, before, depth + 1), ev(e.orelse, before, depth + 1)])
+        if isinstance(e, ast.Call):
+            cn = dotted(e.func) or ''
+            if isinstance(e.func, ast.Attribute) and e.func.attr in ('astype', 'copy', 'view', 'squeeze'):
+                return ev(e.func.value, before, depth + 1)
+            if isinstance(e.func, ast.Attribute) and e.func.attr == 'reshape':
+                inner = e.func.value
+                shape = [unparse(a) for a in e.args]
+                shape = shape[0].strip('()').replace(' ', '').split(',') if len(shape) == 1 else shape
+                # np.repeat(x, k).reshape(-1, k): row r = (x_r, ..., x_r)
+                if isinstance(inner, ast.Call) and dotted(inner.func) == 'np.repeat' and len(inner.args) == 2 and len(shape) == 2 and shape[0] == '-1' \
+                        and unparse(inner.args[1]) == shape[1] and not inner.keywords:
+                    return ev(inner.args[0], before, depth + 1)
+                v = ev(inner, before, depth + 1)
+                if v[0] == 'row' and len(shape) == 2 and shape[1] == '1' and shape[0] in ('-1',):
+                    return v
+                if v[0] in ('row', 'bad'):
+                    return ('bad', f'{unparse(e)[:70]}: reshaping {"a re-assembled array" if v[0] == "bad" else "per-row data"} puts consecutive ELEMENTS into a row, not the values of one halo')
+                return v
+            if cn in ('np.stack', 'np.column_stack') and e.args and isinstance(e.args[0], (ast.Tuple, ast.List)):
+                ax = [unparse(k.value) for k in e.keywords if k.arg == 'axis']
+                if cn == 'np.column_stack' or ax in (['1'], ['-1']):
+                    return join([ev(x, before, depth + 1) for x in e.args[0].elts])
+                v = join([ev(x, before, depth + 1) for x in e.args[0].elts])
+                return ('bad', f'{unparse(e)[:60]}: stacked along axis 0') if v[0] == 'row' else v
+            if cn in ('np.zeros', 'np.ones', 'np.full', 'np.empty') and e.args:
+                a0 = unparse(e.args[0])
+                for t in tables:
+                    if a0 in (f'len({t})', f'{t}.shape[0]', f'({t}.shape[0],)', f'(len({t}),)'):
+                        return ('row', t)
+                return ('scalar',)
+            if cn in SCRAMBLE or (isinstance(e.func, ast.Attribute) and e.func.attr in ('ravel', 'flatten', 'sort', 'argsort', 'transpose', 'repeat', 'tile')):
+                vs = [ev(a, before, depth + 1) for a in e.args for a in (a.elts if isinstance(a, (ast.Tuple, ast.List)) else [a])]
+                if isinstance(e.func, ast.Attribute) and not cn.startswith('np.'):
+                    vs.append(ev(e.func.value, before, depth + 1))
+                v = join(vs)
+                if v[0] == 'row':
+                    return ('bad', f'{unparse(e)[:70]}: {cn or e.func.attr} does not keep row r at position r')
+                return v
+            if cn in ELEMENTWISE or cn in ('len', 'int', 'float'):
+                return join([ev(a, before, depth + 1) for a in e.args]) if cn not in ('len', 'int', 'float') else ('scalar',)
+            vs = [ev(a, before, depth + 1) for a in e.args]
+            v = join(vs)
+            return ('unknown', f'call {cn or unparse(e.func)}') if v[0] == 'row' else v
+        return ('unknown', type(e).__name__)
+    for allocs_, tname, what in ((halo_allocs, 'halos', 'halo'), (part_allocs, 'particles', 'particle')):
+        tvars = [t for t, k in tables.items() if k == tname]
+        for n in walk_no_nested(L):
+            if isinstance(n, ast.Assign) and isinstance(n.targets[0], ast.Subscript) and isinstance(n.targets[0].value, ast.Name) and n.targets[0].value.id in allocs_:
+                a = n.targets[0].value.id
+                v = ev(n.value, n.lineno + 1)
+                key = f'{a}: row r of the slab slice comes from row r of the slab\'s {what} table'
+                if v[0] == 'row':
+                    chk.check(v[1] in tvars, 'C12-R4', HOD, Q, key, f'{unparse(n.value)} is row-aligned with {v[1]}',
+                              f'{a} is filled from rows of {v[1]}, not of the {what} table', node=n)
+                elif v[0] == 'bad':
+                    bad_def = n
+                    for d in defs.get(unparse(n.value), []):
+                        if d.lineno < n.lineno and ev(d.value, d.lineno)[0] == 'bad':
+                            bad_def = d
+                    chk.refuted('C12-R4', HOD, Q, key, f'{a} <- {unparse(n.value)[:40]}: {v[1]}: row r of {a} holds values of other {what}s', node=bad_def)
+                elif v[0] == 'scalar':
+                    chk.proven('C12-R4', HOD, Q, key, f'{unparse(n.value)[:40]} is the same for every row')
+                else:
+                    chk.assumed('C12-R4', HOD, Q, key, f'alignment of {unparse(n.value)[:40]} not decided ({v[1]})', node=n)
 
 
 def _lookup_kernel(sp):
